@@ -1579,9 +1579,13 @@ bool MEDDLY::dd_edge::getElemInt(long index, minterm &m) const
     unpacked_node* U = unpacked_node::New(fp, SPARSE_ONLY);
     for (unsigned k = fp->getNumVariables(); k; --k) {
         //
-        // I don't think index sets can skip levels at all
+        // An index set skips a level only where the variable has a single
+        // value (a fully-reduced forest eliminates the one-child node).
         //
-        MEDDLY_DCASSERT(k == fp->getNodeLevel(p));
+        if (fp->getNodeLevel(p) != int(k)) {
+            m.from(k) = 0;
+            continue;
+        }
         U->initFromNode(p);
 
         //
@@ -1638,9 +1642,13 @@ bool MEDDLY::dd_edge::getElemLong(long index, minterm &m) const
     unpacked_node* U = unpacked_node::New(fp, SPARSE_ONLY);
     for (unsigned k = fp->getNumVariables(); k; --k) {
         //
-        // I don't think index sets can skip levels at all
+        // An index set skips a level only where the variable has a single
+        // value (a fully-reduced forest eliminates the one-child node).
         //
-        MEDDLY_DCASSERT(k == fp->getNodeLevel(p));
+        if (fp->getNodeLevel(p) != int(k)) {
+            m.from(k) = 0;
+            continue;
+        }
         U->initFromNode(p);
 
         //
